@@ -747,7 +747,7 @@ func randNum(r *rand.Rand, kind string) any {
 	if kind[0] == 'u' {
 		return numTree(new(big.Int).SetUint64(x))
 	}
-	sx := int64(x << uint(64-bits)) >> uint(64-bits)
+	sx := int64(x<<uint(64-bits)) >> uint(64-bits)
 	return numTree(big.NewInt(sx))
 }
 
